@@ -214,11 +214,13 @@ PROPS['C19'] = {
                   '(trace-loads/stores) restricted to the array header and the current bin pointer table, plus the lock calls, so '
                   'accesses the compiler merges are not separate points; return codes under concurrency are judged only where the '
                   'model can know them (range error demanded only when no grow covering the index had even started before the call '
-                  'returned, success demanded only when the size already covered the index when the call started); allocation '
-                  'failure is not injected',
+                  'returned, success demanded only when the size already covered the index when the call started); in a fifth '
+                  'of the runs malloc / calloc / realloc made by array.c fail at a seeded rate: the call in which an allocation '
+                  'failed may return -ENOMEM and counts as not having grown anything, every other guarantee is judged as usual',
     'technique': 'deterministic simulation: seeded scheduler over real threads with one baton, preemption at every instrumented shared '
-                 'access and lock call, realloc forced to move (fault kind "realloc always moves"), address/content reference model, '
-                 'ASan, ddmin replay',
+                 'access and lock call, realloc forced to move (fault kind "realloc always moves"), allocation failures '
+                 'injected at the libc seam (fault kind alloc_enomem, recorded per (task, n-th allocation)), address/content '
+                 'reference model, ASan, ddmin replay',
     'design_ref': 'DESIGN.md 4/C19',
     'real': ['lib/array.c', 'lib/util.c (qb_thread_lock)', 'glibc/ASan allocator'],
     'stub': ['pthread mutex/spin lock waiting (state kept by the shim)', 'thread scheduling', 'realloc placement (always moves in 7 of 8 runs)'],
